@@ -72,6 +72,7 @@ type harness struct {
 	obsA   []string
 	rows   int
 	big    bool
+	early  *exportSet // an older backup of slot A, taken while the source was still being written
 }
 
 func (h *harness) track(n *node) *node {
@@ -203,7 +204,14 @@ func runC11(t *testing.T, r *simkit.Run) {
 	if tp.Chance(1, 4) {
 		reopenAt = tp.Intn(msgOps + metaOps)
 	}
+	earlyAt := -1
+	if sc == scNone && tp.Chance(1, 2) {
+		earlyAt = tp.Intn(msgOps + metaOps)
+	}
 	for i, mi, di := 0, 0, 0; mi < msgOps || di < metaOps; i++ {
+		if i == earlyAt && !h.exportEarly() {
+			return
+		}
 		if i == reopenAt {
 			h.b.closeChannels()
 			src.close()
@@ -305,7 +313,7 @@ func runC11(t *testing.T, r *simkit.Run) {
 	fired := false
 	switch sc {
 	case scNone:
-		fired = h.scenarioNone(ref, refDump)
+		fired = h.scenarioNone(ref, refDump) && h.restoreOverExisting(pre, refDump)
 	case scCrashWAL:
 		if rotations > 0 {
 			fired = h.scenarioCrashRead(pre, refDump)
@@ -555,3 +563,91 @@ func (h *harness) sameAs(n *node, want nodeDump, class, sig, what string) bool {
 }
 
 var _ = context.Background
+
+// exportEarly takes a backup of slot A in the middle of the source history, cut
+// at every channel's stored checkpoint. It later serves as the stale content of
+// a restore target that is not fresh.
+func (h *harness) exportEarly() bool {
+	r := h.r
+	cs := h.chansOf(h.slotA)
+	e := &exportSet{}
+	for _, c := range cs {
+		hw := c.StoredHW
+		if hw < c.Adopted {
+			hw = c.Adopted
+		}
+		ok := false
+		for _, b := range c.boundaries() {
+			if b == hw {
+				ok = true
+			}
+		}
+		if !ok {
+			hw = c.StoredHW
+		}
+		e.cuts = append(e.cuts, message.BackupChannelCut{
+			Key: message.ChannelKey(c.Key), ID: message.ChannelID{ID: c.ID.ID, Type: c.ID.Type},
+			Checkpoint: message.Checkpoint{Epoch: c.Epoch, LogStartOffset: min(c.Adopted, hw), HW: hw},
+		})
+	}
+	var err error
+	if e.meta, err = exportMeta(h.src, h.slotA, 0); err != nil {
+		r.Failf("export.failed", "early metadata export failed: %v", err)
+		return false
+	}
+	if e.msg, _, err = exportMessages(h.src, h.slotA, e.cuts, true, 0); err != nil {
+		r.Failf("export.failed", "early message export failed: %v", err)
+		return false
+	}
+	e.msgs = [][]byte{e.msg}
+	h.early = e
+	r.Logf("early export slot=%d meta=%dB msg=%dB", h.slotA, len(e.meta), len(e.msg))
+	return true
+}
+
+// restoreOverExisting restores the final backup onto a node that already holds
+// an older generation of the same hash slot: the result must be the state a
+// fresh node reaches.
+func (h *harness) restoreOverExisting(pre *gateFS, refDump nodeDump) bool {
+	r := h.r
+	if h.early == nil {
+		return true
+	}
+	g := cloneDisk(pre.mem)
+	n, ok := h.openTarget(g)
+	if !ok {
+		return false
+	}
+	defer n.close()
+	if err := install(n, h.input(*h.early, h.slotA), modeFull); err != nil {
+		r.Failf("restore.failed", "fault-free restore of the older backup failed: %v", err)
+		return false
+	}
+	if r.Tape.Chance(1, 2) {
+		// the metadata importer replaces the slot by itself
+		in := h.input(h.expA, h.slotA)
+		if err := importStreams(n, restoreInput{slot: in.slot, meta: in.meta, route: in.route, page: in.page}); err != nil {
+			r.Failf("restore.failed", "metadata import over an older generation failed: %v", err)
+			return false
+		}
+		md, err := dumpEngine(n.gate.mem, "/"+n.name+"/meta")
+		if err != nil {
+			r.Infra("dump: %v", err)
+			return false
+		}
+		if d := diffDumps(refDump.meta, md); d != "" {
+			r.FailSig("restore.over_existing", "meta", "metadata import over an older generation of the slot differs from the import into a fresh node: "+d, nil)
+			return false
+		}
+	}
+	if err := install(n, h.input(h.expA, h.slotA), modeFull); err != nil {
+		r.Failf("restore.failed", "restore over an older generation failed: %v", err)
+		return false
+	}
+	r.Logf("restore over older generation ok")
+	if !h.sameAs(n, refDump, "restore.over_existing", "state", "restore over an older generation of the slot differs from the restore into a fresh node") {
+		return false
+	}
+	r.Probe("restore.over_older_generation")
+	return true
+}
